@@ -1,6 +1,7 @@
 from __future__ import annotations
 
 from collections.abc import Callable
+from typing import cast
 
 from marko import block, inline
 from marko.block import Document
@@ -169,6 +170,15 @@ def _collect_inline_segments(
     elif isinstance(element, inline.InlineHTML):
         assert isinstance(element.children, str)
         segments.append((element.children, None))
+    elif isinstance(element, inline.AutoLink):
+        # Autolinks and bare URLs (GFM `Url` is a subclass): the visible text is the
+        # URL itself, so it is context only and never modified.
+        for child in cast(list[Element], element.children):
+            if isinstance(child, inline.RawText):
+                assert isinstance(child.children, str)
+                segments.append((child.children, None))
+            else:
+                segments.extend((text, None) for text, _ in _collect_inline_segments(child))
     elif hasattr(element, "children") and isinstance(element.children, list):  # pyright: ignore
         # Recursive container (Emphasis, StrongEmphasis, Link, Strikethrough, etc.)
         children: list[Element] = element.children  # pyright: ignore
